@@ -319,25 +319,31 @@ class VerusUnit:
     def run(self, canaries=True, rlimit=None, timeout=900, threads=16):
         """Runs the unit; when the verifier reports a method the unit does not name (a refactoring introduced a helper),
         the helper is extracted automatically and the unit is run again (at most 3 rounds)."""
-        auto = set()
-        for _round in range(3):
-            res = self._run_once(canaries, rlimit, timeout, threads, auto)
-            missing = set()
+        auto, opaque = set(), set()
+        res = None
+        for _round in range(5):
+            res = self._run_once(canaries, rlimit, timeout, threads, auto, opaque)
+            missing, bad_helpers = set(), set()
             for te in res.tool_errors:
                 m = re.search(r"no (?:method|function or associated item) named `(\w+)` found", te.get("message", ""))
                 if m:
                     missing.add(m.group(1))
+                for fnq in te.get("fns", []):
+                    if fnq in getattr(self.weaver, "auto_helpers", []):
+                        bad_helpers.add(fnq.split("::")[-1])
             missing -= auto
-            if not missing:
+            bad_helpers -= opaque
+            if not missing and not bad_helpers:
                 return res
             auto |= missing
+            opaque |= bad_helpers
         return res
 
-    def _run_once(self, canaries, rlimit, timeout, threads, auto):
+    def _run_once(self, canaries, rlimit, timeout, threads, auto, opaque=()):
         t0 = time.time()
         res = UnitResult(self.unit, dict(self.config), os.path.join(self.outdir, self.stem() + ".rs"))
         try:
-            w = Weaver(self.repo, self.spec, self.config, auto_request=auto).run()
+            w = Weaver(self.repo, self.spec, self.config, auto_request=auto, auto_opaque=opaque).run()
         except AnchorLoss as e:
             res.status = "undecided"
             res.undecided_reason = "anchor loss: %s" % e
@@ -478,7 +484,8 @@ class VerusUnit:
             spans = d.get("spans", [])
             if not matched or not spans:
                 # rlimit / unsupported / type error: tool problem
-                res.tool_errors.append(dict(message=msg, rendered=d.get("rendered", "")[:2000]))
+                res.tool_errors.append(dict(message=msg, rendered=d.get("rendered", "")[:2000],
+                                            fns=sorted({owner(sp["line_start"]) for sp in spans if owner(sp["line_start"])})))
                 continue
             if kind is None:
                 continue
